@@ -138,6 +138,7 @@ type app struct {
 	height int64 // atomic; set by the harness under the mempool lock, as BlockExecutor.Commit does
 
 	clock *int64 // optional history clock (concurrent tier)
+	gate  *gate  // optional: holds the answers back (gated stage)
 
 	mtx           sync.Mutex
 	recheckIssued map[int]int // per tx id, Recheck calls that have returned
@@ -157,6 +158,9 @@ func (a *app) getHeight() int64  { return atomic.LoadInt64(&a.height) }
 const recheckMark = "c12-recheck"
 
 func (a *app) CheckTx(req abci.RequestCheckTx) abci.ResponseCheckTx {
+	if a.gate != nil && req.Type != abci.CheckTxType_Recheck {
+		a.gate.enter(a.u.lookup(req.Tx))
+	}
 	spec := a.u.lookup(req.Tx)
 	if spec == nil {
 		atomic.AddInt64(&a.unknownTx, 1)
